@@ -12,11 +12,11 @@ git checkout -q -- . 2>/dev/null; rm -f tests/seed_demo.rs
 git apply --check SEED/patch.diff || { echo "PATCH DOES NOT APPLY"; exit 1; }
 cp SEED/seed_demo.rs tests/seed_demo.rs
 echo "--- demo WITHOUT the change"
-cargo test --offline --test seed_demo 2>&1 | grep -E "^test result|error(\[|:)" | head -3
+RUSTFLAGS="${DEMO_RUSTFLAGS:-}" CARGO_TARGET_DIR="${DEMO_TARGET:-target}" cargo test --offline --test seed_demo 2>&1 | grep -E "^test result|error(\[|:)" | head -3
 R0=${PIPESTATUS[0]}
 git apply SEED/patch.diff
 echo "--- demo WITH the change"
-cargo test --offline --test seed_demo 2>&1 | grep -E "^test result|error(\[|:)" | head -3
+RUSTFLAGS="${DEMO_RUSTFLAGS:-}" CARGO_TARGET_DIR="${DEMO_TARGET:-target}" cargo test --offline --test seed_demo 2>&1 | grep -E "^test result|error(\[|:)" | head -3
 echo "--- repository suite WITH the change (demo excluded)"
 rm -f tests/seed_demo.rs
 cargo test --workspace --no-fail-fast --offline 2>&1 | grep -E "^test result|FAILED|failed" | head -8
